@@ -199,8 +199,11 @@ class Configuration:
 
     @property
     def profiles(self) -> List[ProfileName]:
-        """List of profiles currently being used in Configuration"""
-        return self._profiles
+        """List of profiles currently being used in Configuration
+
+        A copy is handed out: changing it in place does not change the configuration, assign it to `profiles` for that.
+        """
+        return list(self._profiles)
 
     @profiles.setter
     def profiles(self, values: Union[None, List[ProfileName]]) -> None:
@@ -215,9 +218,9 @@ class Configuration:
         Args:
             values:  List of profiles to use.
         """
-        if not values:
-            values = [None]
-        elif values[-1] is not None:
+        # The list is copied: neither is the caller's list changed, nor does a later change of it reach the configuration
+        values = list(values) if values else [None]
+        if values[-1] is not None:
             values.append(None)
 
         self._profiles = values
